@@ -23,7 +23,7 @@ R6  ownership: every write to the three bookkeeping features in the function
 """
 import ast
 
-from ..astutil import oriented
+from ..astutil import oriented, flag_values
 from ..astutil import (text, access_path, calls_in, func_params, stmts_of, is_const, const_value, method_call, range_bounds,
                        store_targets, fold)
 from ..loader import where, AnalysisError
@@ -171,13 +171,8 @@ def run(ctx):
         if ncmp != 1:
             bad1 = bad1 or (p, "a pair can be skipped without being compared (path [%s]): its dominance relation is never recorded" % p.describe(4))
             continue
-        verdict = None
-        for e in p.events:
-            if e.kind == "guard" and isinstance(e.node, ast.Compare) and access_path(e.node.left) == flag and is_const(e.node.comparators[0]) \
-                    and isinstance(e.node.ops[0], (ast.Eq, ast.NotEq)):
-                t = e.val if isinstance(e.node.ops[0], ast.Eq) else not e.val
-                if t:
-                    verdict = const_value(e.node.comparators[0])
+        fv = flag_values(p.events, flag, (0, 1, 2))
+        verdict = next(iter(fv)) if len(fv) == 1 else None
         eff = set()
         for e in p.events:
             if e.kind != "stmt":
